@@ -417,6 +417,19 @@ func (f *consoleFam) play(l *Line, out *rec) error {
 			var w zerolog.ConsoleWriter
 			if ci%2 == 1 {
 				w = zerolog.NewConsoleWriter(set) // the constructor and the struct literal must behave alike
+				if ci%4 == 3 && len(w.FieldsOrder) > 1 {
+					// ... also when the configuration is (re)assigned after construction: the fields are public, what counts is
+					// their value at the time of the Write. Built with the reverse field order, given the real one afterwards
+					real := w.FieldsOrder
+					w = zerolog.NewConsoleWriter(set, func(w *zerolog.ConsoleWriter) {
+						rev := make([]string, len(real))
+						for i, f := range real {
+							rev[len(real)-1-i] = f
+						}
+						w.FieldsOrder = rev
+					})
+					w.FieldsOrder = real
+				}
 			} else {
 				set(&w)
 			}
